@@ -167,6 +167,7 @@ def _build(c):
     parser = sp.make_parser(dict(c["cfg"], cr=c["mode"]))
     for r in c["regs"]:
         parser.add_arguments(u.classes[r["cls"]], dest=r["dest"], prefix=r["prefix"])
+    sp.decoy(c["cfg"])   # conflicts must be found and resolved with THIS parser's settings, whatever was constructed later
     return parser
 
 
@@ -181,7 +182,7 @@ def impl(case):
 
     r = sp.run_outcome(setup)
     if r["o"] != "ok":
-        return {"o": r["o"], "exc": r.get("exc"), "msg": r.get("msg", "")[:200]}
+        return {"o": r["o"], "exc": r.get("exc"), "msg": r.get("msg", "")[:200], "frontends": _frontends(c, recs, [])}
     parser = r["value"]
     sets = []
     for rec in recs:
@@ -205,7 +206,46 @@ def impl(case):
                 probes.append({"opt": opt, "o": "ok", "changed": changed})
             else:
                 probes.append({"opt": opt, "o": res["o"], "code": res.get("code"), "exc": res.get("exc")})
-    return {"o": "ok", "sets": sets, "probes": probes}
+    return {"o": "ok", "sets": sets, "probes": probes, "frontends": _frontends(c, recs, probes)}
+
+
+def _frontends(c, recs, probes):
+    """the one-shot helpers simple_parsing.parse / parse_known_args are the same set-up behind another entry point: with
+    the same settings they must resolve (or refuse) exactly like the ArgumentParser (single registration only: that is
+    all they offer)"""
+    import simple_parsing
+
+    if len(c["regs"]) != 1:
+        return []
+    reg = c["regs"][0]
+    u = Universe().add_classes(c["classes"])
+    cls = u.classes[reg["cls"]]
+    ok = [p for p in probes if p["o"] == "ok"]
+    argv = [ok[0]["opt"], "7"] if ok else []
+    kw = dict(dest=reg["dest"], nested_mode=sp.NEST[c["cfg"]["nest"]], conflict_resolution=sp.CR[c["mode"]],
+              add_option_string_dash_variants=sp.DASH[c["cfg"]["dash"]], argument_generation_mode=sp.GEN[c["cfg"]["gen"]])
+    out = []
+
+    def changed_of(inst):
+        ch = []
+        for rec in recs:
+            v = get_path(inst, ".".join(rec["path"][1:]))
+            if v != rec["default"]:
+                ch.append([".".join(rec["path"]), v if isinstance(v, int) else repr(v)])
+        return ch
+
+    def record(api, res, pick):
+        if res["o"] == "ok":
+            out.append({"api": api, "argv": argv, "o": "ok", "changed": changed_of(pick(res["value"]))})
+        else:
+            out.append({"api": api, "argv": argv, "o": res["o"], "code": res.get("code"), "exc": res.get("exc")})
+
+    sp.reset_globals()
+    record("parse", sp.run_outcome(lambda: simple_parsing.parse(cls, args=argv, prefix=reg["prefix"], **kw)), lambda v: v)
+    if not reg["prefix"]:
+        sp.reset_globals()
+        record("parse_known_args", sp.run_outcome(lambda: simple_parsing.parse_known_args(cls, args=argv, **kw)), lambda v: v[0])
+    return out
 
 
 def model_case(case, obs):
@@ -259,6 +299,10 @@ def oracle(case, obs):
             fails.append({"clause": "none-iff", "detail": "NONE raised although no two fields clash"})
         if default_cfg(c) and not clash_exists(c):
             fails.append({"clause": "none-iff", "detail": f"setup failed although no two fields clash: {obs}"})
+        for fe in obs.get("frontends", []):
+            if not (fe["o"] == obs["o"] and fe.get("exc") == obs.get("exc")):
+                fails.append({"clause": "front-end", "api": fe["api"],
+                              "detail": f"ArgumentParser set-up gives {obs['o']}/{obs.get('exc')} but simple_parsing.{fe['api']}() with the same settings gives {fe}"})
         return fails
     if default_cfg(c) and c["mode"] == "NONE" and clash_exists(c):
         fails.append({"clause": "none-iff", "detail": "a clash exists but NONE mode did not raise"})
@@ -275,6 +319,12 @@ def oracle(case, obs):
     for p in obs["probes"]:
         if p["o"] != "ok" or p["changed"] != [[owner[p["opt"]], 7]]:
             fails.append({"clause": "exact-leaf", "detail": f"[{p['opt']} 7] should change exactly {owner[p['opt']]}: {p}"})
+    ref_probe = next((p for p in obs["probes"] if p["o"] == "ok"), None)
+    for fe in obs.get("frontends", []):
+        want = ref_probe["changed"] if (ref_probe and fe["argv"]) else []
+        if fe["o"] != "ok" or fe["changed"] != want:
+            fails.append({"clause": "front-end", "api": fe["api"],
+                          "detail": f"argv {fe['argv']}: the ArgumentParser changes {want}, simple_parsing.{fe['api']}() with the same settings gives {fe}"})
     no_user_prefix = all(not r["prefix"] for r in c["regs"])
     if no_user_prefix and default_cfg(c):
         for i, (rec, s) in enumerate(zip(recs, obs["sets"])):
